@@ -66,7 +66,7 @@ impl<'i> ExecutionCtx<'i> {
 
 //@ lift air/src/execution_step/execution_context/context.rs :: impl <'i> ExecutionCtx<'i> :: fn new
 //@ name ExecutionCtx::new
-//@ props C06
+//@ props C06 C01
 //@ ret r
 //@ spec
         // C06.V2: the counter of a fresh context is the one persisted in *prev* data, whatever the
